@@ -668,6 +668,21 @@ pub fn gen_window_case(r: &mut Rng, enum_idx: Option<u64>) -> LedgerCase {
         rows.push((base, 10, mk_tx(base, &seller, sell(sold, Decimal::new(30, 0), None))));
         let key = if after_in_file { 20 } else { 5 };
         rows.push((base + off, key, mk_tx(base + off, buyer, buy(Decimal::new(10, 0), Decimal::new(31, 0)))));
+    } else if r.chance(6) {
+        // sell-out at a loss, then a split of the affiliate that will receive the adjustment while it
+        // holds nothing, then its repurchase — all inside the window
+        let buyer = if r.chance(60) { seller.clone() } else { affs[1].clone() };
+        rows.push((base, 10, mk_tx(base, &seller, sell(Decimal::new(100, 0), Decimal::new(r.range(2000, 4500), 2), None))));
+        let a = *r.pick(&[1i32, 5, 10, 20]);
+        let b = a + 1 + r.below((29 - a) as u64) as i32;
+        let forms: [(&str, &str); 4] = [("2", "1"), ("3", "2"), ("1", "2"), ("5", "2")];
+        let (post, pre) = *r.pick(&forms);
+        let ratio = SplitRatio { pre_split: pos(dec(pre)), post_split: pos(dec(post)), reverse_integer_only: false };
+        rows.push((base + a, 13, mk_tx(base + a, &buyer, TxActionSpecifics::Split(SplitTxSpecifics { ratio }))));
+        rows.push((base + b, 15, mk_tx(base + b, &buyer, buy(rand_amount(r, 200, 2), Decimal::new(r.range(1000, 3000), 2)))));
+        if r.chance(50) {
+            rows.push((base + 60, 20, mk_tx(base + 60, &buyer, sell(Decimal::new(1, 0), Decimal::new(r.range(1000, 6000), 2), None))));
+        }
     } else if r.chance(8) {
         // a loss sale of many shares with a tiny repurchase (e.g. a reinvested dividend): the denied
         // part of the loss is a fraction of a cent
@@ -685,7 +700,9 @@ pub fn gen_window_case(r: &mut Rng, enum_idx: Option<u64>) -> LedgerCase {
         let mut day = base;
         for s in 0..n_sales {
             let who = if r.chance(75) { seller.clone() } else { affs[1].clone() };
-            let sold = rand_amount(r, 30, 3);
+            // the first sale sometimes sells the seller's whole position (100 shares): the adjustment
+            // then lands on an affiliate holding nothing, until the repurchase
+            let sold = if s == 0 && who == seller && r.chance(20) { Decimal::new(100, 0) } else { rand_amount(r, 30, 3) };
             let sfl = if r.chance(12) {
                 let v = if r.chance(20) { Decimal::ZERO } else { -rand_amount(r, 300, 2) };
                 Some(SFLInput { superficial_loss: LessEqualZeroDecimal::try_from(v).unwrap(), force: r.chance(50) })
